@@ -25,6 +25,13 @@
 //!   winner / get_conflicting of every object as the committing replica; B melds A +
 //!   refresh: B.read == A.read, x not in conflict on B; A melds B + refresh: A.read unchanged, x not in conflict
 //!   again; C melds A + refresh: C.read == A.read, x not in conflict.
+//! Twin leaves: ud (replica-specific update, then delete_object) and uf (replica-specific update, then the same final value):
+//! the final revisions of the two replicas have equal index and digest and differ only in their parent-derived tail.
+//! resolve-array:<eA>|<eB>:choose=<leaf>   list♭ = [a,b,c]; A and B submit different versions (append p / append q / move a to
+//! the end / remove b / put r in front); for EVERY live leaf L of the array descriptor resolve_as(descriptor, L): not in
+//! conflict; every element of a concurrent version that nobody deleted is present exactly once (before and after); L the
+//! current winner => read(None) unchanged; commit; reopen; B and a replica holding base + B's edit meld the resolver: same
+//! document, no conflict; melding back does not reopen it.
 //! Situations without a conflict on x (choose=none): x is not reported in conflict and resolve_as(x, winner) is Err
 //! and changes nothing.  guard:<name>: resolve_as with a non-leaf / unknown revision, an object not in conflict, an
 //! unknown object is Err and changes neither read(None) nor the stage.
@@ -37,7 +44,7 @@ use serde_json::{json, Map, Value};
 
 const F: &str = "\u{266D}";
 const ROOT: &str = "\u{221A}";
-const EDITS: [&str; 7] = ["u1", "u2", "uu", "del", "drop", "y", "u3"];
+const EDITS: [&str; 9] = ["u1", "u2", "uu", "del", "drop", "y", "ud", "uf", "u3"];
 
 fn base_doc() -> Value {
     let mut m = Map::new();
@@ -73,6 +80,19 @@ fn apply(m: &Melda, e: &str, who: usize) -> Result<(), String> {
             upd(&d)
         }
         "del" => orch::ge("delete_object", || m.delete_object("x")).map(|_| ()),
+        // twin leaves: a replica-specific intermediate edit, then the SAME final step on every replica — the final
+        // revisions have equal index and digest and differ only in the parent-derived tail
+        "ud" => {
+            d[&a] = json!({"_id": "x", "v": 10 + who});
+            upd(&d)?;
+            orch::ge("delete_object", || m.delete_object("x")).map(|_| ())
+        }
+        "uf" => {
+            d[&a] = json!({"_id": "x", "v": 20 + who});
+            upd(&d)?;
+            d[&a] = json!({"_id": "x", "v": "final"});
+            upd(&d)
+        }
         "drop" => {
             d.as_object_mut().unwrap().remove(&a);
             upd(&d)
@@ -89,6 +109,9 @@ fn touches_x(e: &str) -> bool {
 }
 
 fn same_revision(e1: &str, e2: &str) -> bool {
+    if matches!(e1, "ud" | "uf") || matches!(e2, "ud" | "uf") {
+        return false; // different parents: never the same revision, even for the same edit name
+    }
     e1 == e2 || (matches!(e1, "del" | "drop") && matches!(e2, "del" | "drop"))
 }
 
@@ -405,6 +428,178 @@ fn guard_case(name: &str) -> Result<Vec<String>, String> {
     Ok(bad)
 }
 
+// ------------------------------------------------------------------------------------------ array descriptors
+
+const ARR: &str = "^\u{221A}@list\u{266D}";
+const ARRAY_EDITS: [&str; 5] = ["app-p", "app-q", "move", "remove", "front-r"];
+
+fn list_doc(ids: &[&str]) -> Map<String, Value> {
+    let mut m = Map::new();
+    m.insert("title".into(), json!("t"));
+    m.insert(format!("list{}", F), Value::Array(ids.iter().map(|i| json!({"_id": i, "v": i})).collect()));
+    m
+}
+
+fn array_version(e: &str) -> Vec<&'static str> {
+    match e {
+        "app-p" => vec!["a", "b", "c", "p"],
+        "app-q" => vec!["a", "b", "c", "q"],
+        "move" => vec!["b", "c", "a"],
+        "remove" => vec!["a", "c"],
+        _ => vec!["r", "a", "b", "c"],
+    }
+}
+
+fn list_of(m: &Melda) -> Result<Vec<String>, String> {
+    let d = orch::ge("read", || m.read(None))?;
+    Ok(d.get(&format!("list{}", F)).and_then(|v| v.as_array()).map(|a| a.iter().filter_map(|x| x.get("_id").and_then(|i| i.as_str()).map(|s| s.to_string())).collect()).unwrap_or_default())
+}
+
+/// A (resolver) and B edit list♭ = [a,b,c] concurrently; A melds B; resolve_as(array descriptor, leaf number `choice`)
+fn array_case(ea: &str, eb: &str, choice: Option<usize>) -> Result<(Vec<String>, usize), String> {
+    let mut bad = vec![];
+    let ad = orch::mem();
+    let mut a = orch::open(&ad)?;
+    let mut b = orch::open(&orch::mem())?;
+    orch::ge("A.update(base)", || a.update(list_doc(&["a", "b", "c"])))?;
+    commit_some(&a, "base")?;
+    sync(&mut b, &a, "B takes the base")?;
+    let (va, vb) = (array_version(ea), array_version(eb));
+    orch::ge("A.update", || a.update(list_doc(&va)))?;
+    commit_some(&a, "A's edit")?;
+    orch::ge("B.update", || b.update(list_doc(&vb)))?;
+    commit_some(&b, "B's edit")?;
+    let mut c = orch::open(&orch::mem())?;
+    sync(&mut c, &b, "C takes the base and B's edit")?;
+    sync(&mut a, &b, "A melds B")?;
+    if !in_conflict(&a, ARR)? {
+        return Err(format!("driver: the array is not in conflict: {:?}", orch::g(|| a.in_conflict())));
+    }
+    let w = orch::ge("get_winner(array)", || a.get_winner(ARR))?;
+    let others: Vec<String> = orch::ge("get_conflicting(array)", || a.get_conflicting(ARR))?.into_iter().collect();
+    let choice = match choice {
+        None => return Ok((vec![], others.len() + 1)),
+        Some(c) => c,
+    };
+    let l = if choice == 0 { w.clone() } else { others.get(choice - 1).cloned().ok_or("driver: leaf index out of range")? };
+    let before = read(&a);
+    let merged = list_of(&a)?;
+    // every element of a concurrent version that nobody deleted, exactly once
+    let complete = |got: &[String], ctx: &str, bad: &mut Vec<String>| {
+        let base = ["a", "b", "c"];
+        let mut seen = std::collections::BTreeSet::new();
+        for x in got {
+            if !seen.insert(x.clone()) {
+                bad.push(format!("{}: element {} appears twice in {:?}", ctx, x, got));
+            }
+        }
+        for x in va.iter().chain(vb.iter()) {
+            let deleted = base.contains(x) && (!va.contains(x) || !vb.contains(x));
+            if !deleted && !seen.contains(*x) {
+                bad.push(format!("{}: element {} of a concurrent version (deleted by nobody) is missing from {:?} (A {:?}, B {:?})", ctx, x, got, va, vb));
+            }
+            if deleted && seen.contains(*x) {
+                bad.push(format!("{}: element {} was deleted by one replica but is in {:?}", ctx, x, got));
+            }
+        }
+    };
+    complete(&merged, "merged read before the resolution", &mut bad);
+    match orch::g(|| a.resolve_as(ARR, &l)) {
+        Ok(Ok(_)) => {}
+        Ok(Err(e)) => return Ok((vec![format!("resolve_as(array, {}) is Err({})", l, e)], 0)),
+        Err(p) => return Ok((vec![format!("panic: resolve_as(array, {}): {}", l, p.lines().next().unwrap_or(""))], 0)),
+    }
+    if in_conflict(&a, ARR)? {
+        bad.push("the array is still in in_conflict() after resolve_as".into());
+    }
+    match orch::g(|| a.get_conflicting(ARR)) {
+        Ok(Ok(s)) if s.is_empty() => {}
+        other => bad.push(format!("get_conflicting(array) after resolve_as is {:?}", other.map(|r| r.map_err(|e| e.to_string())))),
+    }
+    let after = read(&a);
+    let got = list_of(&a)?;
+    complete(&got, "after resolve_as", &mut bad);
+    if choice == 0 && after != before {
+        bad.push(format!("the current winner {} was chosen, but read(None) changed: {} -> {}", l, before, after));
+    }
+    match orch::g(|| a.commit(None)) {
+        Ok(Ok(Some(_))) => {}
+        other => {
+            bad.push(format!("commit after resolve_as is {:?}", other.map(|r| r.map(|x| x.is_some()).map_err(|e| e.to_string()))));
+            return Ok((bad, 0));
+        }
+    }
+    let committed = read(&a);
+    if committed != after {
+        bad.push(format!("read(None) changed by the commit: {} -> {}", after, committed));
+    }
+    match orch::open(&ad) {
+        Err(e) => bad.push(format!("reopen after the commit: {}", e)),
+        Ok(f) => {
+            if read(&f) != committed {
+                bad.push(format!("reopened replica reads {} but the resolver {}", read(&f), committed));
+            }
+            if in_conflict(&f, ARR)? {
+                bad.push("the array is in conflict on the reopened replica".into());
+            }
+        }
+    }
+    for (who, p) in [("peer B", &mut b), ("C (base + B's edit)", &mut c)] {
+        sync(p, &a, "a receiver melds the resolver")?;
+        if read(p) != committed {
+            bad.push(format!("{} after meld+refresh reads {} but the resolver {}", who, read(p), committed));
+        }
+        if in_conflict(p, ARR)? {
+            bad.push(format!("the array is in conflict on {} after it received the resolution", who));
+        }
+    }
+    sync(&mut a, &b, "the resolver melds the peer back")?;
+    if read(&a) != committed {
+        bad.push(format!("the resolver's read(None) changed after melding the peer back: {} -> {}", committed, read(&a)));
+    }
+    if in_conflict(&a, ARR)? {
+        bad.push("the conflict on the array REOPENED on the resolver after melding the peer back".into());
+    }
+    Ok((bad, 0))
+}
+
+fn array_situation(ea: &'static str, eb: &'static str, out: &Out) {
+    let name = format!("{}|{}", ea, eb);
+    let input = |choice: Value| json!({"array": [ea, eb], "choice": choice});
+    out.begin(&format!("resolve-array:{}", name), input(json!("enumerate")));
+    let n = match orch::g(|| array_case(ea, eb, None)) {
+        Ok(Ok((_, n))) => n,
+        other => {
+            let id = format!("resolve-array:{}:choose=none", name);
+            out.case(&id, true);
+            let r = match other {
+                Ok(Err(e)) => Ok(Err(e)),
+                Err(p) => Err(p),
+                _ => Ok(Err("driver".to_string())),
+            };
+            return book(out, &id, input(json!("none")), "setup", r);
+        }
+    };
+    for choice in 0..n {
+        let id = format!("resolve-array:{}:choose={}", name, choice_name(choice, n - 1));
+        out.begin(&id, input(json!(choice)));
+        out.case(&id, true);
+        book(out, &id, input(json!(choice)), "resolve-array", orch::g(|| array_case(ea, eb, Some(choice)).map(|(bad, _)| bad)));
+    }
+}
+
+fn array_pairs() -> Vec<(&'static str, &'static str)> {
+    let mut v = vec![];
+    for a in ARRAY_EDITS {
+        for b in ARRAY_EDITS {
+            if a != b {
+                v.push((a, b));
+            }
+        }
+    }
+    v
+}
+
 fn sit_name(edits: &[&str], on_b: bool) -> String {
     format!("{}{}", edits.join("|"), if on_b { "/onB" } else { "" })
 }
@@ -485,7 +680,20 @@ fn situations(thorough: bool) -> Vec<(Vec<&'static str>, bool)> {
             out.push((vec![*a, *b], false));
         }
     }
+    // twin leaves
+    let twins: Vec<(&'static str, &'static str)> = if thorough {
+        EDITS[..8].iter().flat_map(|a| EDITS[..8].iter().map(move |b| (*a, *b))).filter(|(a, b)| matches!(*a, "ud" | "uf") || matches!(*b, "ud" | "uf")).collect()
+    } else {
+        vec![("ud", "ud"), ("uf", "uf"), ("ud", "uf"), ("uf", "ud"), ("ud", "u1"), ("u1", "uf"), ("del", "ud")]
+    };
+    for (a, b) in twins {
+        out.push((vec![a, b], false));
+    }
     if thorough {
+        out.push((vec!["ud", "ud"], true));
+        out.push((vec!["uf", "uf"], true));
+        out.push((vec!["ud", "ud", "del"], false));
+        out.push((vec!["uf", "uf", "u3"], false));
         for a in two {
             for b in two {
                 out.push((vec![*a, *b], true));
@@ -506,6 +714,9 @@ fn work(thorough: bool, out: &Out) {
     for (edits, on_b) in situations(thorough) {
         situation(&edits, on_b, out);
     }
+    for (a, b) in array_pairs() {
+        array_situation(a, b, out);
+    }
     for gname in GUARDS {
         let id = format!("guard:{}", gname);
         out.begin(&id, json!({ "guard": gname }));
@@ -518,9 +729,9 @@ pub fn run(thorough: bool, _seed: u64) -> Report {
     let mut rep = Report::new(
         "resolve_api",
         if thorough {
-            "situations <eA>|<eB> for every pair over {u1, u2, uu (two staged updates), del (delete_object), drop (update without x), y (edit y only)} (36), the same 36 resolved on B instead of A, and <eA>|<eB>|<eC> over {u1,u2,uu,del,drop}^2 x {u3, del} (50, up to 3 leaves); per situation with a conflict on x one case per live leaf (winner + every get_conflicting entry), otherwise one choose=none case; 5 guard cases"
+            "situations <eA>|<eB> for every pair over {u1, u2, uu (two staged updates), del (delete_object), drop (update without x), y (edit y only)} (36), every pair involving the twin-leaf edits ud / uf (28), array descriptors: the 20 ordered pairs of different versions out of {append p, append q, move, remove, front r} with every live leaf, the same 36 resolved on B instead of A, and <eA>|<eB>|<eC> over {u1,u2,uu,del,drop}^2 x {u3, del} (50, up to 3 leaves); per situation with a conflict on x one case per live leaf (winner + every get_conflicting entry), otherwise one choose=none case; 5 guard cases"
         } else {
-            "situations <eA>|<eB> for every pair over {u1, u2, uu (two staged updates), del (delete_object), drop (update without x), y (edit y only)} (36), resolved on A; per situation with a conflict on x one case per live leaf (winner + the get_conflicting entry), otherwise one choose=none case; 5 guard cases"
+            "situations <eA>|<eB> for every pair over {u1, u2, uu (two staged updates), del (delete_object), drop (update without x), y (edit y only)} (36) plus 7 twin-leaf situations with ud / uf (update then delete / update then a common final value), resolved on A; array descriptors: the 20 ordered pairs of different versions out of {append p, append q, move, remove, front r}, every live leaf; per situation with a conflict on x one case per live leaf (winner + the get_conflicting entry), otherwise one choose=none case; 5 guard cases"
         },
         "exhaustive over situations x live leaves; each case rebuilds the situation and runs resolve_as, commit, reopen, meld to the peer(s), meld back, meld to a replica holding base + the peer's edit; non-trivial = a conflict on x exists (or guard case); every case guarded, 10 s watchdog",
     );
@@ -539,6 +750,13 @@ pub fn replay(case: &Value) -> Value {
         if let Some(gname) = inp["guard"].as_str().and_then(|g| GUARDS.iter().find(|x| **x == g)) {
             let id = format!("guard:{}", gname);
             book(out, &id, json!({ "guard": gname }), "guard", orch::g(|| guard_case(gname)));
+            return;
+        }
+        if let Some(pair) = inp["array"].as_array() {
+            let find = |v: &Value| v.as_str().and_then(|e| ARRAY_EDITS.iter().find(|x| **x == e).copied());
+            if let (Some(a), Some(b)) = (pair.first().and_then(find), pair.get(1).and_then(find)) {
+                array_situation(a, b, out);
+            }
             return;
         }
         let edits: Option<Vec<&'static str>> = inp["edits"].as_array().and_then(|a| a.iter().map(|e| e.as_str().and_then(|e| EDITS.iter().find(|x| **x == e).copied())).collect());
